@@ -19,6 +19,7 @@ import (
 	"go/printer"
 	"go/token"
 	"go/types"
+	"sort"
 	"strconv"
 	"strings"
 	"unicode"
@@ -61,7 +62,9 @@ type PkgConfig struct {
 	Ffi string
 }
 
-func getFfi(pkg *packages.Package) string {
+// getFfi returns the FFI a package uses; a package reaching several different
+// FFIs cannot be translated
+func getFfi(pkg *packages.Package) (string, error) {
 	seenFfis := make(map[string]struct{})
 	packages.Visit([]*packages.Package{pkg},
 		func(pkg *packages.Package) bool {
@@ -80,20 +83,28 @@ func getFfi(pkg *packages.Package) string {
 	)
 
 	if len(seenFfis) > 1 {
-		panic(fmt.Sprintf("multiple ffis used %v", seenFfis))
+		var ffis []string
+		for ffi := range seenFfis {
+			ffis = append(ffis, ffi)
+		}
+		sort.Strings(ffis)
+		return "", fmt.Errorf("package %s uses multiple ffis: %s",
+			pkg.PkgPath, strings.Join(ffis, ", "))
 	}
 	for ffi := range seenFfis {
-		return ffi
+		return ffi, nil
 	}
-	return "none"
+	return "none", nil
 }
 
 // NewPkgCtx initializes a context based on a properly loaded package
 func NewPkgCtx(pkg *packages.Package, tr TranslationConfig) Ctx {
-	// Figure out which FFI we're using
+	// Figure out which FFI we're using (translatePackage refuses packages for
+	// which this fails)
+	ffi, _ := getFfi(pkg)
 	config := PkgConfig{
 		TranslationConfig: tr,
-		Ffi:               getFfi(pkg),
+		Ffi:               ffi,
 	}
 
 	return Ctx{
